@@ -53,7 +53,7 @@ func NewRequest(id string, priority float64, clock clock.Clock) *Request {
 		ID:           id,
 		priority:     priority,
 		timestamp:    clock.Now(),
-		doneCh:       make(chan struct{}),
+		doneCh:       make(chan struct{}, 1),
 		processMutex: sync.Mutex{},
 		isProcessed:  false,
 	}
